@@ -884,6 +884,7 @@ func createAssociationFromConfigWithTsn(cfg *Config, tsn uint32) *Association {
 	assoc.t3RTX = newRTXTimer(timerT3RTX, assoc, noMaxRetrans, rtoMax)
 	assoc.tReconfig = newRTXTimer(timerReconfig, assoc, noMaxRetrans, rtoMax)
 	assoc.ackTimer = newAckTimer(assoc)
+	verifCreated(assoc)
 
 	return assoc
 }
